@@ -114,14 +114,16 @@ def _random_static(rng, kind):
         sel = rng.randint(1, 4)
         samp = rng.randint(sel, min(8, sel + 4))
         n_start = rng.randint(1, 5)
-        n = n_start + sel * rng.randint(0, 4) + rng.randint(0, sel - 1)
+        # the store holds at least one selected set (jax rejects a larger update at trace time)
+        n = max(sel, n_start + sel * rng.randint(0, 4) + rng.randint(0, sel - 1))
         b = rng.choice([1, 2]) if n_start >= 2 else 1
         return (n, n_start, sel, samp, b)
     T = store() if rarlib.has_t(kind) else None
     X = store() if rarlib.has_x(kind) else None
     if T and X and abs(T[2] - X[2]) > 2:
-        X = (X[0], X[1], T[2], max(X[3], T[2]), X[4])
-        X = (max(X[0], X[1]), X[1], X[2], X[3], X[4])
+        # keep the enumeration of Holds.C17 (pairs with one free coordinate) small
+        selX = T[2]
+        X = (max(X[0], selX), X[1], selX, max(X[3], selX), X[4])
     return (kind, 2 if X else 0, T, X)
 
 
@@ -144,6 +146,10 @@ def gen_cases(rng, tier):
             n_trig = min(8, c["start"] + c["every"] * (cap + 1) + rng.randint(0, 1))
             c["ops"] = _history(rng, c, n_trig, rng.choice([1, 3, 5]))
             cases.append(c)
+    # a selected set larger than the store: jax rejects the program when trigger_rar is traced
+    big = _base(rng, "ode", 0, (3, 2, 4, 5, 1), None, "trigger")
+    big.update(start=0, every=1, ops=[["draw"], ["trigger", 0, "0"]], may_reject="type_error")
+    cases.append(big)
     solve_statics = [_STATICS[0], _STATICS[4], _STATICS[7], _STATICS[9]]
     for kind, dim, T, X in solve_statics:
         base = _base(rng, kind, dim, T, X, "solve")
